@@ -11,6 +11,9 @@
 #include <symengine/mul.h>
 #include <symengine/pow.h>
 #include <symengine/complex.h>
+#include <symengine/complex_double.h>
+#include <symengine/real_double.h>
+#include <cmath>
 #include <symengine/rational.h>
 #include <symengine/symbol.h>
 #include <symengine/constants.h>
@@ -30,6 +33,7 @@ const int NPOOL = 4;
 const unsigned MAXDIM = 8;
 
 std::vector<RCP<const Basic>> VALS;
+size_t NEX = 0; // VALS[0..NEX) are exact values, the rest floating
 RCP<const Symbol> SX, SY, SZ;
 
 void build_vals()
@@ -66,6 +70,19 @@ void build_vals()
             // entries, whatever a zero test may think of their base
             pow(zero, SX),
             pow(zero, add(SX, SY))};
+    NEX = VALS.size();
+    // floating entries (only drawn by "floatmode" plans, which issue no
+    // arithmetic operations): components are small multiples of 2^-600, so
+    // every sum of them is exact in any order and never cancels, while
+    // products and squared magnitudes underflow to 0.0 - a zero test that
+    // goes through a product or a norm sees "zero" where the entry is not
+    double t = std::ldexp(1.0, -600);
+    VALS.push_back(complex_double(std::complex<double>(t, t)));
+    VALS.push_back(complex_double(std::complex<double>(t, -t / 2)));
+    VALS.push_back(complex_double(std::complex<double>(0.0, t)));
+    VALS.push_back(real_double(t));
+    VALS.push_back(complex_double(std::complex<double>(3 * t, 2 * t)));
+    VALS.push_back(real_double(std::ldexp(1.0, -1060))); // subnormal
 }
 // VALS index of the additive inverse (for cancellation), or -1
 int neg_index(int v)
@@ -99,18 +116,38 @@ Json gen(uint64_t seed, const std::string &tier)
     for (auto &x : w)
         if (g.chance(1, 5))
             x = g.chance(1, 2) ? 0 : x * 3;
+    // floatmode (own stream: the plans of other seeds stay what they were):
+    // a share of the entries are tiny floating numbers and no operation that
+    // does arithmetic on entries is issued, so the dense mirror is exact
+    Rng gf(seed * 0x9E3779B97F4A7C15ull + 0x25f1);
+    bool floatmode = gf.chance(1, 6);
+    if (floatmode)
+        w[6] = w[7] = w[8] = w[9] = w[11] = 0;
+    auto fval = [&](int v) -> int {
+        if (floatmode && gf.chance(1, 3))
+            return (int)(NEX + gf.below(VALS.size() - NEX));
+        return v;
+    };
+    // coordinate lists of a floatmode plan hold floating values only (and
+    // not the subnormal one): a sum that mixes them with numbers of ordinary
+    // size depends on the order of summation, which the property leaves open
+    auto cooval = [&](int v) -> int {
+        return floatmode ? (int)(NEX + gf.below(VALS.size() - NEX - 1)) : v;
+    };
     if (w[0] + w[2] == 0)
         w[0] = 20;
     Json cfg = Json::object();
     cfg["npool"] = npool;
     cfg["maxdim"] = maxdim;
+    if (floatmode)
+        cfg["floatmode"] = true;
     plan["config"] = cfg;
     Json ops = Json::array();
     auto dim = [&]() { return 1 + (unsigned)g.below(maxdim); };
     auto val = [&]() -> int {
         if (g.below(10) < zero_w)
             return 0;
-        return 1 + (int)g.below(VALS.size() - 1);
+        return fval(1 + (int)g.below(NEX - 1));
     };
     auto coo_op = [&](unsigned m) {
         Json o = Json::object();
@@ -124,7 +161,7 @@ Json gen(uint64_t seed, const std::string &tier)
         for (unsigned k = 0; k < n; k++) {
             Json e = Json::array();
             unsigned i = g.below(r), j = g.below(c);
-            int v = 1 + (int)g.below(VALS.size() - 1);
+            int v = cooval(1 + (int)g.below(NEX - 1));
             e.push(Json(i));
             e.push(Json(j));
             e.push(Json(v));
@@ -135,7 +172,7 @@ Json gen(uint64_t seed, const std::string &tier)
                                                              : val();
                 e2.push(Json(i));
                 e2.push(Json(j));
-                e2.push(Json(v2 == 0 ? v : v2));
+                e2.push(Json(cooval(v2 == 0 ? v : v2)));
                 es.push(e2);
             }
         }
@@ -235,7 +272,7 @@ Json gen(uint64_t seed, const std::string &tier)
                 for (unsigned q = 0; q < MAXDIM; q++)
                     vs.push(Json(g.chance(1, 25)
                                      ? 0
-                                     : 1 + (int)g.below(VALS.size() - 1)));
+                                     : 1 + (int)g.below(NEX - 1)));
                 o["vec"] = vs;
                 break;
             }
@@ -529,7 +566,7 @@ void exec(Run &run)
             for (unsigned j = 0; j < c; j++) {
                 RCP<const Basic> v = zero;
                 if (!eq(*p.d.get(i, j), *zero))
-                    v = VALS[1 + (i * 5 + j * 3) % (VALS.size() - 1)];
+                    v = VALS[1 + (i * 5 + j * 3) % (NEX - 1)];
                 q.d.set(i, j, v);
                 q.s.set(i, j, v);
             }
@@ -825,7 +862,7 @@ void exec(Run &run)
                 for (unsigned q = 0; q < n; q++) {
                     RCP<const Basic> v
                         = vec.size() ? VALS[(size_t)vec[q % vec.size()].as_int()
-                                            % VALS.size()]
+                                            % NEX]
                                      : RCP<const Basic>(one);
                     if (eq(*v, *zero))
                         has_zero = true;
